@@ -27,7 +27,7 @@ type params struct {
 	perAsk  int    // asks per asker
 	replier string // once | twice | never | slow (replies on release)
 	timeout time.Duration
-	kill    string // none | asker | asker-respawn | asker-respawn-racing (an actor reacting to ActorKilledEvent re-spawns the asker's name at once and lets the successor Ask)
+	kill    string // asker-zombie (the asker fails, its restart hook fails, the resulting zombie is killed) | none | asker | asker-respawn | asker-respawn-racing (an actor reacting to ActorKilledEvent re-spawns the asker's name at once and lets the successor Ask)
 	mix     bool   // the first Ask of a burst uses the default (5 s) timeout, the later ones p.timeout
 }
 
@@ -75,7 +75,13 @@ func scenario(p params, bounds []int) *vexp.Scenario {
 		Bounds: bounds,
 		Setup:  func(x *vexp.X) { vsys.CoarseSetupSends() },
 		Body: func(x *vexp.X) {
-			w := vsys.NewWorld(x, vivid.WithActorSystemDefaultAskTimeout(5*time.Second))
+			sysOpts := []vivid.ActorSystemOption{vivid.WithActorSystemDefaultAskTimeout(5 * time.Second)}
+			if p.kill == "asker-zombie" {
+				// the askers are top-level actors: the system's strategy decides about their failures
+				sysOpts = append(sysOpts, vivid.WithActorSystemSupervisionStrategy(vivid.OneForOneStrategy(vivid.SupervisionStrategyDecisionMakerFN(
+					func(vivid.SupervisionContext) (vivid.SupervisionDecision, string) { return vivid.SupervisionDecisionRestart, "scripted" }))))
+			}
+			w := vsys.NewWorld(x, sysOpts...)
 			w.Quiet = true
 			w.Start()
 			var pend []*pending
@@ -112,7 +118,13 @@ func scenario(p params, bounds []int) *vexp.Scenario {
 			incarnation := 0
 			mkAsker := func(name string) *vsys.Script {
 				s := &vsys.Script{Name: name}
+				if p.kill == "asker-zombie" {
+					s.Restarted = func(*vsys.Act) error { return errors.New("scripted restart-hook failure") }
+				}
 				s.OnMsg = func(a *vsys.Act, ctx vivid.ActorContext, m vsys.Msg) {
+					if m.ID == "boom" {
+						panic("scripted failure of the asker")
+					}
 					if m.ID != "ask" {
 						return
 					}
@@ -162,6 +174,10 @@ func scenario(p params, bounds []int) *vexp.Scenario {
 				w.Sys.Tell(w.Ref("/"+n), vsys.Msg{ID: "ask"})
 				vrt.Yield()
 			}
+			if p.kill == "asker-zombie" {
+				w.Sys.Tell(w.Ref("/a1"), vsys.Msg{ID: "boom"})
+				vrt.QuiesceNoTimers() // a1 failed, was to be restarted, its hook failed: it is a zombie now
+			}
 			if p.kill != "none" {
 				w.Sys.Kill(w.Ref("/a1"), false, "driver")
 				vrt.Yield()
@@ -210,7 +226,7 @@ func scenario(p params, bounds []int) *vexp.Scenario {
 					if pd.doneAt-pd.made < int64(eff) {
 						x.Fail("timeout-not-early", "Ask %s timed out after %v, its timeout is %v", pd.id, time.Duration(pd.doneAt-pd.made), eff)
 					}
-					if p.kill == "asker" && pd.asker == "a1" && askerDiedAt >= 0 && askerDiedAt < pd.made+int64(eff) {
+					if (p.kill == "asker" || p.kill == "asker-zombie") && pd.asker == "a1" && askerDiedAt >= 0 && askerDiedAt < pd.made+int64(eff) {
 						x.Fail("dead-asker-completes-its-asks", "Ask %s was still pending when its asker terminated at %v, yet it only completed by its own timeout at %v instead of with the actor-dead error", pd.id, time.Duration(askerDiedAt), time.Duration(pd.doneAt))
 					}
 				case pd.err == "deaded":
@@ -269,6 +285,19 @@ func build(tier string) []*vexp.Scenario {
 			out = append(out, scenario(params{askers: 2, perAsk: 1, replier: rp, timeout: to, kill: "asker"}, bounds))
 			out = append(out, scenario(params{askers: 1, perAsk: 2, replier: rp, timeout: to, kill: "asker"}, bounds))
 		}
+	}
+	// the asker fails with an Ask in flight, its restart is abandoned (zombie), then it is killed
+	for _, rp := range []string{"never", "slow"} {
+		for _, to := range []time.Duration{time.Second, 0} {
+			out = append(out, scenario(params{askers: 1, perAsk: 2, replier: rp, timeout: to, kill: "asker-zombie"}, bounds))
+		}
+	}
+	// the timeout of a 1 ns Ask firing anywhere inside the registration (lock operations of packages actor / future are switch points)
+	for _, per := range []int{1, 2} {
+		per := per
+		out = append(out, vexp.Split(6, func() *vexp.Scenario {
+			return vexp.Fine(scenario(params{askers: 1, perAsk: per, replier: "never", timeout: time.Nanosecond, kill: "none"}, []int{0, 1, 2}), "vivid/internal/actor.", "vivid/internal/future.")
+		})...)
 	}
 	// the asker's name is taken over the moment the predecessor is reported terminated; the successor's Asks are its own
 	for _, rp := range []string{"once", "slow", "never"} {
